@@ -64,6 +64,7 @@ func (o *Once) Do(f func()) {
 type Pool struct {
 	New   func() any
 	items []any
+	syncs []*vmc.SyncObj // "a call to Put(x) synchronizes before a call to Get returning that same value x"
 }
 
 // Get takes an item.
@@ -71,6 +72,8 @@ func (p *Pool) Get() any {
 	if n := len(p.items); n > 0 {
 		x := p.items[n-1]
 		p.items = p.items[:n-1]
+		p.syncs[n-1].Acquire()
+		p.syncs = p.syncs[:n-1]
 		return x
 	}
 	if p.New != nil {
@@ -83,6 +86,9 @@ func (p *Pool) Get() any {
 func (p *Pool) Put(x any) {
 	if x != nil {
 		p.items = append(p.items, x)
+		so := &vmc.SyncObj{}
+		so.Release()
+		p.syncs = append(p.syncs, so)
 	}
 }
 
@@ -145,5 +151,123 @@ func (m *Map) Range(f func(k, v any) bool) {
 		if !f(e.k, e.v) {
 			return
 		}
+	}
+}
+
+// LoadAndDelete deletes a key and returns the previous value.
+func (m *Map) LoadAndDelete(k any) (any, bool) {
+	m.m.Lock()
+	defer m.m.Unlock()
+	v, ok := m.d[k]
+	delete(m.d, k)
+	return v, ok
+}
+
+// Swap stores a value and returns the previous one.
+func (m *Map) Swap(k, v any) (any, bool) {
+	m.m.Lock()
+	defer m.m.Unlock()
+	if m.d == nil {
+		m.d = map[any]any{}
+	}
+	old, ok := m.d[k]
+	m.d[k] = v
+	return old, ok
+}
+
+// CompareAndSwap swaps if the stored value equals old.
+func (m *Map) CompareAndSwap(k, old, nw any) bool {
+	m.m.Lock()
+	defer m.m.Unlock()
+	if cur, ok := m.d[k]; ok && cur == old {
+		m.d[k] = nw
+		return true
+	}
+	return false
+}
+
+// CompareAndDelete deletes if the stored value equals old.
+func (m *Map) CompareAndDelete(k, old any) bool {
+	m.m.Lock()
+	defer m.m.Unlock()
+	if cur, ok := m.d[k]; ok && cur == old {
+		delete(m.d, k)
+		return true
+	}
+	return false
+}
+
+// Clear deletes everything.
+func (m *Map) Clear() {
+	m.m.Lock()
+	defer m.m.Unlock()
+	m.d = nil
+}
+
+// OnceFunc is sync.OnceFunc.
+func OnceFunc(f func()) func() {
+	var o Once
+	return func() { o.Do(f) }
+}
+
+// OnceValue is sync.OnceValue.
+func OnceValue[T any](f func() T) func() T {
+	var o Once
+	var v T
+	return func() T {
+		o.Do(func() { v = f() })
+		return v
+	}
+}
+
+// OnceValues is sync.OnceValues.
+func OnceValues[T1, T2 any](f func() (T1, T2)) func() (T1, T2) {
+	var o Once
+	var v1 T1
+	var v2 T2
+	return func() (T1, T2) {
+		o.Do(func() { v1, v2 = f() })
+		return v1, v2
+	}
+}
+
+// Cond is sync.Cond on the controlled scheduler: Wait releases L, blocks until a Signal /
+// Broadcast issued after it started waiting, and takes L again.
+type Cond struct {
+	L       Locker
+	waiters []*condWaiter
+}
+
+type condWaiter struct {
+	woken *vmc.Chan[struct{}]
+}
+
+// NewCond is sync.NewCond.
+func NewCond(l Locker) *Cond { return &Cond{L: l} }
+
+// Wait is sync.Cond.Wait.
+func (c *Cond) Wait() {
+	w := &condWaiter{woken: vmc.NewChan[struct{}](1)}
+	c.waiters = append(c.waiters, w)
+	c.L.Unlock()
+	w.woken.Recv()
+	c.L.Lock()
+}
+
+// Signal wakes the longest waiting goroutine, if any.
+func (c *Cond) Signal() {
+	if len(c.waiters) > 0 {
+		w := c.waiters[0]
+		c.waiters = c.waiters[1:]
+		w.woken.Send(struct{}{})
+	}
+}
+
+// Broadcast wakes all waiting goroutines.
+func (c *Cond) Broadcast() {
+	ws := c.waiters
+	c.waiters = nil
+	for _, w := range ws {
+		w.woken.Send(struct{}{})
 	}
 }
